@@ -17,7 +17,7 @@ use std::time::Duration;
 const DENY: &[&str] = &[
     "read", "sleep", "exec", "spawn", "exit", "quit", "q", "watchdog", "http_client", "wget", "ftp_get", "ftp_get_in_memory", "ftp_put",
     "ftp_put_in_memory", "ftp_list", "ftp_nlst", "rm", "mv", "cp", "writefile", "write_text_file", "appendfile", "write_binary_file",
-    "writebinfile", "touch", "mkdir", "rmdir", "zip", "unzip", "chmod", "set_env", "unset_env", "cd", "set_current_dir",
+    "writebinfile", "touch", "mkdir", "rmdir", "zip", "unzip", "chmod", "cd", "set_current_dir",
     "set_current_directory", "temp_file", "test_directory", "test_file", "gitignore_path_array", "glob_array", "globarray", "glob_cp",
     "glob_chmod", "cp_glob", "chmod_glob", "map_to_properties", "write_properties", "if", "elseif", "else", "while", "for", "fn",
     "function", "end", "end_if", "end_while", "end_for", "end_fn", "cat",
@@ -72,7 +72,10 @@ pub fn gen(r: &mut Rng) -> Value {
                         return untyped(r);
                     }
                     let coll = name.starts_with("array") || name.starts_with("map") || name.starts_with("set_") || name.starts_with("is_") || name == "release";
-                    if coll {
+                    if name == "eval" || name == "alias" {
+                        // a block word / flow command evaluated on its own (no script around it), or under a new name
+                        if i == 0 && name == "alias" { "n1".to_string() } else if i <= 1 { r.pick(&["if", "for", "while", "fn", "function", "else", "elseif", "end", "goto", "return", "true", "x", "in", "set", "array", "release", "on_error"]).to_string() } else { r.pick(&["true", "x", "in", "${h_arr}", ":l", "<scope>", "1"]).to_string() }
+                    } else if coll {
                         if i == 0 { r.pick(&HANDLES).to_string() } else if r.chance(1, 2) { r.pick(&NUMS).to_string() } else { r.pick(&TEXTS).to_string() }
                     } else if name.contains("json") {
                         match r.below(5) { 0 => r.pick(&["--collection", "-c", "v", "out"]).to_string(), 1 | 2 => r.pick(&HANDLES).to_string(), _ => r.pick(&DOCS).to_string() }
@@ -97,6 +100,11 @@ pub fn gen(r: &mut Rng) -> Value {
             json!({"name": name, "args": args})
         })
         .collect();
+    // (a name defined by an earlier `alias n1 ..` line is called at the end)
+    let mut lines = lines;
+    if lines.iter().any(|l| l["name"] == "alias" && l["args"][0] == "n1" && l["args"][1] != "n1" && l["args"].as_array().map(|a| a.len() >= 2).unwrap_or(false)) {
+        lines.push(json!({"name": "n1", "args": [r.pick(&["true", "x", "${h_arr}"])]}));
+    }
     json!({ "lines": lines })
 }
 
